@@ -43,9 +43,12 @@ def tie_spec(seed: int) -> Dict[str, Any]:
     prof["network"] = rnd.choice(["euclidean", "euclidean", "euclidean", "grid"])
     prof["fleets"] = rnd.choice([0, 2, 3, 3])
     prof["prices"] = rnd.choice(["geoid", "geoid", "station", "none"])
-    prof["search_type"] = rnd.choice(["nearest_shortest_queue"] * 9 + ["shortest_time_to_charge"])
+    sttc = seed % 3 == 1  # every third scenario ranks stations by estimated time to charge
+    prof["search_type"] = "shortest_time_to_charge" if sttc else "nearest_shortest_queue"
+    if sttc:
+        prof["custom_chargers"] = 1.0  # FAST150 next to DCFC: equal estimates for a vehicle limited to 50 kW
     spec = random_spec(seed, prof)
-    elec = ["LEVEL_2", "DCFC", "LEVEL_1"]
+    elec = ["LEVEL_2", "DCFC", "LEVEL_1"] if not sttc else ["DCFC", "FAST150", "LEVEL_2"]
     # (a) every public station offers two or three equally ranked on-shift plug types with no queue
     for s in spec["stations"]:
         if s["id"].startswith("s"):
@@ -77,7 +80,7 @@ def tie_spec(seed: int) -> Dict[str, Any]:
             for q in range(nq):
                 c = ring[((q * len(ring)) // nq + rnd.randint(0, 50)) % len(ring)]
                 sla, slo = h3.h3_to_geo(c)
-                spec["stations"].append({"id": f"st{j}_{q}", "lat": sla, "lon": slo, "plugs": [{"charger": "DCFC", "count": 2, "on_shift": True}, {"charger": "LEVEL_2", "count": 2, "on_shift": True}]})
+                spec["stations"].append({"id": f"st{j}_{q}", "lat": sla, "lon": slo, "plugs": [{"charger": "DCFC", "count": 2, "on_shift": True}, {"charger": "FAST150" if sttc else "LEVEL_2", "count": 2, "on_shift": True}]})
         # closer stations would win without a tie: keep only the ring stations and the base stations public
         spec["stations"] = [s for s in spec["stations"] if not (s["id"].startswith("s") and not s["id"].startswith("st"))] or spec["stations"]
         if spec.get("fleets"):
@@ -160,7 +163,23 @@ def run_exec(case: Dict[str, Any]) -> Dict[str, Any]:
     steps = []
     try:
         rp = load_case(ctx)
+        from nrel.hive.runner.runner_payload_ops import set_instruction_generators, update_instruction_generator_safe
+
         for k in range(int(case["steps"])):
+            if k % 5 == 2:
+                # what a co-simulation client may do between calls without changing anything: hand one generator, or all of
+                # them, back to the payload
+                names = list(rp.u.step_update.instruction_generator_order)
+                if k % 10 == 2 and names and type(rp.u.step_update.instruction_generators[names[0]]).__name__ == names[0]:
+                    res = update_instruction_generator_safe(rp, rp.u.step_update.instruction_generators[names[0]])
+                    from returns.result import Failure
+
+                    if not isinstance(res, Failure):
+                        rp = res.unwrap()
+                        hooks.REC.calls["cosim_single_generator_updates"] += 1
+                else:
+                    rp = set_instruction_generators(rp, tuple(rp.u.step_update.ordered_instruction_generators))
+                    hooks.REC.calls["cosim_generator_swaps"] += 1
             with quiet_stdout():
                 rp = hc.crank(rp, 1).runner_payload
             ef = entity_fps(rp.s, ids=False)
